@@ -9,7 +9,8 @@ def run(cmd, cwd, env=None, timeout=900):
     return p.returncode, p.stdout + p.stderr
 for rid in sys.argv[1:]:
     wt = f"/tmp/wt/{rid}"
-    for v in ("r1", "r2", "r3", "r4", "r5"):
+    rid = rid.rstrip("b")
+    for v in ("r1", "r2", "r3", "r4", "r5", "r6", "r7", "r8"):
         sd = f"{wt}/_ref/{v}"
         if not os.path.exists(f"{sd}/patch.diff"):
             continue
